@@ -39,10 +39,12 @@ def run(tier, seed):
         if rows > 140 or (quick and rows > 70 and len(scenarios) % 4):
             continue
         scenarios.append({"id": len(scenarios) + 1, "cfg": s["cfg"], "ops": s["ops"]})
-        if len(scenarios) >= (14 if quick else 150):
+        # measured: ~120 probes/s; with every offset and prefix probed (thorough) a scenario costs up to 15 000 probes
+        if len(scenarios) >= (14 if quick else 16):
             break
     pipe = vf.Pipeline(PROP, "c14", ("IOMon.tla", "IOMon.cfg"), heap="8g", per_class=3,
                        extra=["--density", "quick" if quick else "all"])
+    pipe.timeout = 7200
 
     def pin(s, init):
         return _pin(s, init)
